@@ -114,7 +114,8 @@ def reader_cls(block):
 STREAM_KINDS = ['buffered-16', 'buffered-40', 'buffered-96', 'buffered-97',
                 'buffered-4096', 'buffered-8192', 'file', 'peekable',
                 'prefixed-29', 'prefixed-4093', 'prefixed-buffered-72',
-                'mmap', 'plain-wrapper']
+                'mmap', 'plain-wrapper', 'iobase-adapter',
+                'says-unseekable', 'says-seekable']
 
 
 class PlainWrapper(object):
@@ -135,6 +136,39 @@ class PlainWrapper(object):
 
     def close(self):
         self.closed = True
+
+class IOBaseAdapter(io.BufferedIOBase):
+    """An adapter derived from io.BufferedIOBase that implements read /
+    seek / tell and leaves everything else to the base class -- whose
+    seekable() / readable() answer False."""
+    def __init__(self, data):
+        io.BufferedIOBase.__init__(self)
+        self._s = io.BytesIO(data)
+
+    def read(self, n=-1):
+        return self._s.read(n)
+
+    def seek(self, off, whence=0):
+        return self._s.seek(off, whence)
+
+    def tell(self):
+        return self._s.tell()
+
+
+class Claims(PlainWrapper):
+    """Wrapper with an explicit seekable() answer (seek works either way)."""
+    answer = False
+
+    def seekable(self):
+        return self.answer
+
+    def seek(self, *a):
+        return self._s.seek(*a)
+
+
+class ClaimsSeekable(Claims):
+    answer = True
+
 
 # what precedes the DiffX data in a 'prefixed' stream (a mail header, an
 # export banner): consumed by the caller before the reader gets the stream
@@ -163,6 +197,12 @@ def open_stream(data, kind):
         return Peekable(data)
     if kind == 'plain-wrapper':
         return PlainWrapper(data)
+    if kind == 'iobase-adapter':
+        return IOBaseAdapter(data)
+    if kind == 'says-unseekable':
+        return Claims(data)
+    if kind == 'says-seekable':
+        return ClaimsSeekable(data)
     if kind == 'mmap':
         import mmap
         import tempfile
@@ -456,7 +496,9 @@ def plan(tier):
                 'just after offsets 4096 / 8192) x every padding read through '
                 'io.BufferedReader with buffer sizes 16 / 40 / 96 / 97 / 4096 / '
                 '8192, a real temporary file, a peek()-capable in-memory '
-                'stream, and streams whose first 29 / 72 / 4093 bytes were '
+                'stream, mmap, thin wrappers (seek() returning None, '
+                'seekable() answering False / True, an io.BufferedIOBase '
+                'adapter with the base class\'s answers), and streams whose first 29 / 72 / 4093 bytes were '
                 'consumed by the caller before the reader got them. Non-trivial: some header line is at least one block '
                 'long.'
                 % (len(files), len(PADS), len(blocks), HAS_CHUNK_PARAM),
